@@ -153,7 +153,9 @@ def conservation(case):
     for k, L in enumerate(lv):
         # (i)
         # single precision: storage rounding is relative to the field maximum (the scale C12 states it on)
-        scf = sc if prec == "double" else max(sc, float(np.max(np.abs(flx[k]))))
+        # (double precision as well: the mean is a sum over cells of values of magnitude max|flx|, a sparse source has a mean far below its
+        # maximum - thorough tier, seed 3: 1.18e-11 of the mean for an impulse-like source at G = 16.6)
+        scf = max(sc, float(np.max(np.abs(flx[k]))))
         e = abs(float(flx[k].mean()) - qm) / scf
         resid[f"mean_flux_{prec}"] = max(resid.get(f"mean_flux_{prec}", 0), e)
         if not e <= (EX[prec] if prec == "double" else 1e-5):
